@@ -293,6 +293,41 @@ func (m *machine) stepInner(a Action) (string, string) {
 		if cerr != nil {
 			return base + ":error", fmt.Sprintf("Close of %q: %v", h.name, cerr)
 		}
+	case "closedops":
+		// the calls of the statement on a handle that has been closed: the cache answers as the source does (an error)
+		h := m.slots[a.Slot]
+		if h == nil {
+			return "", ""
+		}
+		cerr := h.c.Close()
+		_ = h.s.Close()
+		m.slots[a.Slot] = nil
+		if cerr != nil {
+			return base + ":close-error", fmt.Sprintf("Close of %q: %v", h.name, cerr)
+		}
+		m.nontrivial = true
+		_, cse := h.c.Stat()
+		_, sse := h.s.Stat()
+		if (cse == nil) != (sse == nil) {
+			return base + ":stat", fmt.Sprintf("Stat on the closed handle of %q: cache %v, source %v", h.name, cse, sse)
+		}
+		if h.dir {
+			_, cre := hackpadfs.ReadDirFile(h.c, a.N)
+			_, sre := hackpadfs.ReadDirFile(h.s, a.N)
+			if (cre == nil) != (sre == nil) {
+				return base + ":readdir", fmt.Sprintf("ReadDir(%d) on the closed handle of %q: cache %v, source %v", a.N, h.name, cre, sre)
+			}
+		} else {
+			_, cre := h.c.Read(make([]byte, 8))
+			_, sre := h.s.Read(make([]byte, 8))
+			if (cre == nil) != (sre == nil) {
+				return base + ":read", fmt.Sprintf("Read on the closed handle of %q: cache %v, source %v", h.name, cre, sre)
+			}
+		}
+		cce, sce := h.c.Close(), h.s.Close()
+		if (cce == nil) != (sce == nil) {
+			return base + ":close", fmt.Sprintf("second Close of %q: cache %v, source %v", h.name, cce, sce)
+		}
 	case "read":
 		h := m.slots[a.Slot]
 		if h == nil || h.dir {
@@ -465,7 +500,7 @@ func genAction(t *rapid.T, h Header) Action {
 		all = append(all, f.Path, f.Path) // files twice as likely
 	}
 	all = append(all, "missing", "a/missing")
-	a := Action{K: rapid.SampledFrom([]string{"open", "open", "open", "read", "read", "read", "seek", "stat", "readdir", "readdir", "close", "fsstat", "fsreaddir"}).Draw(t, "k")}
+	a := Action{K: rapid.SampledFrom([]string{"open", "open", "open", "read", "read", "read", "seek", "stat", "readdir", "readdir", "close", "closedops", "fsstat", "fsreaddir"}).Draw(t, "k")}
 	a.Slot = rapid.IntRange(0, 2).Draw(t, "slot")
 	switch a.K {
 	case "open", "fsstat", "fsreaddir":
@@ -490,7 +525,7 @@ func genAction(t *rapid.T, h Header) Action {
 		a.N = rapid.SampledFrom([]int{0, 1, 7, 100, 511, 512, 513, 600, 2000, 6000}).Draw(t, "n")
 	case "seek":
 		a.Off = int64(rapid.SampledFrom([]int{0, 1, 511, 512, 513, 1499, 6000}).Draw(t, "off"))
-	case "readdir":
+	case "readdir", "closedops":
 		a.N = rapid.SampledFrom([]int{1, 2, 3, 100, 0, -1}).Draw(t, "n")
 	}
 	return a
